@@ -213,14 +213,14 @@ Proof.
 Qed.
 
 Lemma loop_body_bounds : forall lines start t n,
-  loop_body lf rec_cond rec_loop lines start = POk (t, n) ->
+  loop_body fixed lf rec_cond rec_loop lines start = POk (t, n) ->
   (exists v c ct chs, t = TLoop v c ct chs) /\ 1 <= n /\ n <= length lines - start.
 Proof.
   intros lines start t n H. unfold loop_body in H.
   destruct (loop_collect start (skipn start lines) start false 0 [] "" "")
     as [[[[[found i] raw] var] coll]|d|e|] eqn:E; simpl in H; try discriminate.
-  destruct (body_go lf rec_cond rec_loop (detect_and_strip_indentation raw)
-              (detect_and_strip_indentation raw) 0 0 [] []) as [[ct chs]|d|e|]; simpl in H; try discriminate.
+  match type of H with context [body_go ?a ?b ?c ?d ?e 0 0 [] []] =>
+    destruct (body_go a b c d e 0 0 [] []) as [[ct chs]|d0|e0|] end; simpl in H; try discriminate.
   destruct found; [|discriminate]. inversion H; subst.
   apply loop_collect_bounds in E. destruct E as [_ E]. specialize (E eq_refl).
   rewrite skipn_length in E. split; [eauto|].
@@ -306,10 +306,11 @@ Proof.
   apply allowed_bind; [apply content_line_glue_allowed|]. intros; apply IH.
 Qed.
 
-Lemma flush_cur_allowed : forall st, allowed b (flush_cur lf st).
+Lemma flush_cur_allowed : forall st, allowed b (flush_cur fixed lf st).
 Proof.
   intros st. unfold flush_cur. destruct (cs_cur st) as [[[c content] chs]|]; simpl; auto.
-  apply allowed_bind; [apply flush_plain_allowed|]. intros; simpl; auto.
+  apply allowed_bind; [|intros; simpl; auto].
+  destruct fixed; [apply flush_glue_lines_allowed|apply flush_plain_allowed].
 Qed.
 
 Lemma finalize_allowed : forall st, allowed b (finalize lf st).
@@ -562,12 +563,19 @@ Proof.
   intros ls. unfold detect_and_strip_indentation. destruct (base_indent ls); auto. apply map_length.
 Qed.
 
+Lemma drop_leading_comments_length : forall raw, length (drop_leading_comments raw) <= length raw.
+Proof.
+  induction raw as [|l r IH]; simpl; auto.
+  destruct (startswith (strip l) "#"); [lia|].
+  destruct (negb (nonempty (strip l))); simpl; lia.
+Qed.
+
 Lemma loop_body_allowed : forall lines start l0,
   nth_error lines start = Some l0 -> is_for_line (strip l0) = true ->
   (forall ded j, length ded < length lines - start -> recok b (rec_cond ded j)) ->
   (forall ded j l, length ded < length lines - start -> nth_error ded j = Some l ->
                    is_for_line (strip l) = true -> recok b (rec_loop ded j)) ->
-  allowed b (loop_body lf rec_cond rec_loop lines start).
+  allowed b (loop_body fixed lf rec_cond rec_loop lines start).
 Proof.
   intros lines start l0 Hn Hf Hc Hl. unfold loop_body.
   pose proof (loop_collect_allowed start (skipn start lines) start false 0%Z [] "" "") as A.
@@ -582,6 +590,8 @@ Proof.
       apply loop_collect_raw_header in E; auto.
       assert (L2 : length (skipn start lines) = S (length rest)) by (rewrite Es; auto).
       rewrite skipn_length in L2. lia. }
+  assert (Hlen' : length (if fixed then drop_leading_comments raw else raw) < length lines - start).
+  { destruct fixed; auto. pose proof (drop_leading_comments_length raw). lia. }
   apply allowed_bind.
   - apply body_go_allowed; auto; intros j l H1 H2; [apply Hc|eapply Hl; eauto]; rewrite dedent_length; auto.
   - intros [ct chs] _. destruct found; simpl; auto.
@@ -716,11 +726,12 @@ Proof. intros st k H; split; intros; [congruence|discriminate]. Qed.
 Lemma keeps_diag : forall d, keeps (PDiag d).
 Proof. intros; split; intros; discriminate. Qed.
 
-Lemma flush_cur_has : forall st st1, flush_cur lf st = POk st1 -> has_cur st1 = has_cur st.
+Lemma flush_cur_has : forall st st1, flush_cur fixed lf st = POk st1 -> has_cur st1 = has_cur st.
 Proof.
   intros st st1 H. unfold flush_cur in H. unfold has_cur.
   destruct (cs_cur st) as [[[c ct] chs]|] eqn:E.
-  - destruct (flush_plain lf ct (cs_lines st)); simpl in H; try discriminate.
+  - destruct (if fixed then flush_glue lf ct (cs_lines st) else flush_plain lf ct (cs_lines st));
+      simpl in H; try discriminate.
     inversion H; subst. reflexivity.
   - inversion H; subst. rewrite E. reflexivity.
 Qed.
